@@ -254,6 +254,9 @@ def layout_cases():
             if name == 'foo_other' and ['rename-to', 'foo_other'] in items:
                 continue
             out.append({'blocks': [{'name': name, 'items': [list(i) for i in items], 'split': True}]})
+            out.append({'blocks': [{'name': name, 'items': [list(i) for i in items], 'split': 'bare'}]})
+        # a single annotation on the line after a bare identifier line
+        out.append({'blocks': [{'name': name, 'items': [['skip', None]], 'split': 'bare'}]})
     return out
 
 
